@@ -45,6 +45,16 @@ fn main() {
             let p: usize = args.get(2).and_then(|x| x.parse().ok()).unwrap_or(0);
             checks::c18::solo_table_main(p);
         }
+        "deepcase" => {
+            // rxmc deepcase <shape> <depth> <xsd 0|1>: one deeply nested pattern through the API
+            // surface on a thread with a fixed 16 MiB stack (independent of ulimit -s)
+            let shape: usize = args.get(2).and_then(|x| x.parse().ok()).unwrap_or(0);
+            let depth: usize = args.get(3).and_then(|x| x.parse().ok()).unwrap_or(1);
+            let xsd = args.get(4).map_or(false, |x| x == "1");
+            let h = std::thread::Builder::new().stack_size(16 << 20).spawn(move || checks::crash::deep_case_main(shape, depth, xsd)).expect("spawn");
+            let line = h.join().unwrap_or_else(|_| "PANIC".to_string());
+            println!("{}", line);
+        }
         "selftest" => {
             std::process::exit(selftest::run(&ucd));
         }
